@@ -5,6 +5,8 @@ module.
 """
 
 import math
+import re
+import string
 from typing import Any, Dict, List, Optional, Tuple, TypeVar, Union, cast
 
 import numba
@@ -1105,9 +1107,18 @@ def replace_dict_values(name: str,
     >>> replace_dict_values(name, dictionary, True)
     'something bla bla - [5_(5)_30] something else 76'
     """
+    # Names of the fields that `name` actually uses ("{snr}", "{snr[0]}", ...)
+    used = set()
+    for _, field, _, _ in string.Formatter().parse(name):
+        if field:
+            used.add(re.split(r'[.\[]', field, maxsplit=1)[0])
+
     new_dict = {}
     for n, v in dictionary.items():
-        if isinstance(v, np.ndarray):
+        # Only an array that is used in `name` is converted, and the range
+        # representation only exists for non-empty 1D arrays
+        if (isinstance(v, np.ndarray) and n in used and v.ndim == 1
+                and v.size > 0):
             v = "[{0}]".format(get_mixed_range_representation(
                 v, filename_mode))
         new_dict[n] = v
